@@ -131,13 +131,14 @@ fn gen_simple_font(rng: &mut Rng, idx: u64) -> SimpleFont {
     // "symbol-like" fonts: ONE encoding record (any of the eight kinds, none of them Windows Symbol) and private-use
     // entries at U+F000 + c for ASCII characters c the font does not map: only a (3, 0) subtable may fall back from c to
     // U+F000 + c, so these characters must come out as .notdef
-    let symbol_like = idx % 4 == 3 && rng.chance(1, 2);
+    // every eighth font, not left to chance; the (0, 0) record in every other one of them
+    let symbol_like = idx % 8 == 3;
     let fmt = match idx % 4 {
         0 => CmapFormat::Format12,
         1 => CmapFormat::Format4,
         2 => CmapFormat::Both,
         // (0, 0) - Unicode 1.0, whose encoding id equals Windows Symbol's - half of the time
-        _ if symbol_like => CmapFormat::Records(if rng.chance(1, 2) { 0x80 } else { 1u8 << rng.below(8) }),
+        _ if symbol_like => CmapFormat::Records(if (idx / 8) % 2 == 0 { 0x80 } else { 1u8 << rng.below(8) }),
         // several encoding records, the mapping in the most preferred one and decoys in the others
         _ => CmapFormat::Records((1 + rng.below(255)) as u8),
     };
